@@ -392,7 +392,7 @@ func (kc *kernelCtx) runFunc0(b *Block) *Unit {
 			}
 			sameParams = strings.Join(strings.Fields(pc.Text), " ") == strings.Join(ps, " ")
 			if !sameParams {
-				u.Errs = append(u.Errs, fmt.Sprintf("contract %s does not bind: no parameter or captured variable named as its parameters were (%s); the closure of that ordinal has (%s)", b.Name, strings.Join(strings.Fields(pc.Text), " "), strings.Join(ps, " ")))
+				u.Errs = append(u.Errs, fmt.Sprintf("contract %s does not bind: its parameters were (%s); the closure of that ordinal has (%s)", b.Name, strings.Join(strings.Fields(pc.Text), " "), strings.Join(ps, " ")))
 			}
 		} else {
 			sameCalls = false
